@@ -412,7 +412,7 @@ func ruleNextShape(c *Ctx, r *Reporter) {
 				flagOK = true
 			}
 		}
-		good := st.Val == rev && flagOK && instrReaches(st, yield) && !instrDominates(yield, st)
+		good := st.Val == rev && flagOK && instrReaches(st, yield) && !instrDominates(yield, st) && !reachesWithinIteration(yield, st)
 		r.check(good, key, c.posStr(instrPos(st)),
 			"it."+cu.field+" is set to the revision of the change about to be yielded, on the matching branch, before yield",
 			"it."+cu.field+" is not advanced to exactly the revision of the change being delivered (before yielding it): a partially consumed sequence loses or repeats changes")
@@ -435,7 +435,7 @@ func ruleNextShape(c *Ctx, r *Reporter) {
 				flagOK = true
 			}
 		}
-		good := len(mark.Call.Args) == 2 && mark.Call.Args[1] == rev && flagOK && instrReaches(mark, yield)
+		good := len(mark.Call.Args) == 2 && mark.Call.Args[1] == rev && flagOK && instrReaches(mark, yield) && !reachesWithinIteration(yield, mark)
 		r.checkP([]string{"C08", "C07"}, good, dn+"|mark", c.posStr(instrPos(mark)),
 			"dt.mark(rev) with the revision of the deletion being handed out, on the deleted branch",
 			"the delete tracker is not marked with exactly the revision of the deletion being handed out: the collector may discard deletions this iterator has not been handed yet (or never collects)")
@@ -869,4 +869,18 @@ func naturalLoop(hdr *ssa.BasicBlock) map[*ssa.BasicBlock]bool {
 		st = append(st, b.Preds...)
 	}
 	return in
+}
+
+// reachesWithinIteration: `to` can execute after `from` without an intervening
+// dualIterator.next() call, i.e. within the same loop iteration.
+func reachesWithinIteration(from, to ssa.Instruction) bool {
+	avoid := map[ssa.Instruction]bool{}
+	for _, ia := range allInstrs(from.Parent()) {
+		if call, ok := ia.In.(*ssa.Call); ok {
+			if f := staticCallee(call); f != nil && f.Name() == "next" && recvTypeName(f) == "dualIterator" {
+				avoid[call] = true
+			}
+		}
+	}
+	return reachesAvoiding(from, to, avoid)
 }
